@@ -1,10 +1,133 @@
-(* C12  Equilibrium-range wind estimate.  Only statements; proofs are [exact lemma]. *)
-From Coq Require Import Reals List.
+(* C12  Equilibrium-range wind estimate: closed form, f^-p ranges, log law, direction conventions.
+   Only statements; every proof is [exact lemma].  Model: OSU.Model.WindEstimate
+   (None = NaN; [eq_values] = equilibrium_range_values, [estimate1d] = estimate_u10_from_spectrum on one
+   spectrum of a batch, [estimate2d] = the same on a frequency-direction spectrum). *)
+From Coq Require Import Reals List Arith.
 From OSU.Model Require Import WindEstimate.
+From OSU.Proofs Require Import WindEstimate.
 Import ListNotations.
 Open Scope R_scope.
 
+(* u* = 8 pi^3 E_eq / (4 g I beta), for both methods, every spectrum, every parameter set *)
+Theorem ustar_closed_form : forall m cf P fs es a1s b1s e a1 b1,
+  eq_values m P fs es a1s b1s = Some (Some e, a1, b1) ->
+  p_grav P <> 0 -> p_I P <> 0 -> p_beta P <> 0 ->
+  exists d u10, estimate1d m cf P fs es a1s b1s =
+    Some (Some (8 * PI ^ 3 * e / (4 * p_grav P * p_I P * p_beta P)), d, u10).
+Proof. exact estimate_ustar_closed_form. Qed.
+
+(* a NaN equilibrium level gives NaN friction velocity and NaN u10 *)
+Theorem ustar_nan_level : forall m cf P fs es a1s b1s a1 b1,
+  eq_values m P fs es a1s b1s = Some (None, a1, b1) ->
+  exists d, estimate1d m cf P fs es a1s b1s = Some (None, d, None).
+Proof. exact estimate_nan_level. Qed.
+
+(* peak method: E_eq is the maximum of fillna0(E f^p); the FIRST bin that attains it is selected and
+   a1, b1 are read at that bin *)
+Theorem eq_level_peak_is_max : forall p fs es a1s b1s, scaled p fs es <> [] ->
+  let sc := map fill0 (scaled p fs es) in
+  exists i, (i < length sc)%nat /\
+    eq_peak p fs es a1s b1s = (Some (nth i sc 0), onth a1s i, onth b1s i) /\
+    (forall x, In x sc -> x <= nth i sc 0) /\
+    (forall j, (j < i)%nat -> nth j sc 0 < nth i sc 0).
+Proof. exact eq_peak_is_max. Qed.
+
+(* peak method, c f^-p range: E_i = c / f_i^p at some bin and E f^p <= c everywhere (NaN counted as 0) *)
+Theorem f4_tail_level_peak : forall p fs es a1s b1s c i,
+  length es = length fs -> (i < length fs)%nat ->
+  powr (nth i fs 0) p <> 0 ->
+  nth i es None = Some (c / powr (nth i fs 0) p) ->
+  (forall j, (j < length fs)%nat -> fill0 (omul (nth j es None) (powr (nth j fs 0) p)) <= c) ->
+  fst (fst (eq_peak p fs es a1s b1s)) = Some c.
+Proof. exact peak_f4_level. Qed.
+
+(* mean method (minimum relative variance over windows of nb bins, with the code's index range
+   [i_min, i_max) and its clipping of the averaged indices to nf-1-nb): if E f^p = c on the nb bins of a
+   window s inside the searched range, no bin is NaN, the scaled spectrum is positive and every flat
+   window of the searched range has the same level, then E_eq = c. *)
+Theorem f4_tail_level_mean : forall p fmax nb fs es a1s b1s xs c s,
+  length es = length fs ->
+  scaled p fs es = map Some xs ->
+  (forall x, In x xs -> 0 < x) ->
+  (0 < nb)%nat ->
+  (i_min_of fs <= s < i_max_of fs fmax nb)%nat ->
+  (forall ii, (ii < nb)%nat -> nth (s + ii) xs 0 = c) ->
+  (forall k c', (i_min_of fs <= k < i_max_of fs fmax nb)%nat ->
+      (forall ii, (ii < nb)%nat -> nth (k + ii) xs 0 = c') -> c' = c) ->
+  exists a1 b1, eq_mean p fmax nb fs es a1s b1s = Some (Some c, a1, b1).
+Proof. exact mean_level. Qed.
+
+(* [scaled] is E_i * f_i^p bin by bin (so "E f^p = c" above is a statement about the spectrum) *)
+Theorem scaled_is_E_times_f_pow : forall p fs es i, (i < length fs)%nat -> (i < length es)%nat ->
+  nth i (scaled p fs es) None = omul (nth i es None) (powr (nth i fs 0) p).
+Proof. exact scaled_nth. Qed.
+
+(* scaling the spectrum by c > 0 scales the friction velocity by c and leaves the direction alone
+   (both methods, NaN bins included; the selected bins do not move) *)
+Theorem ustar_linear_in_E : forall m cf P fs es a1s b1s c, 0 < c ->
+  option_map (fun r : option R * option R * option R => (fst (fst r), snd (fst r)))
+    (estimate1d m cf P fs (map (fun o => omul o c) es) a1s b1s)
+  = option_map (fun r : option R * option R * option R =>
+                  (option_map (Rmult c) (fst (fst r)), snd (fst r)))
+    (estimate1d m cf P fs es a1s b1s).
+Proof. exact ustar_linear_in_E. Qed.
+
+Theorem ustar_of_additive : forall g I beta e1 e2,
+  ustar_of g I beta (e1 + e2) = ustar_of g I beta e1 + ustar_of g I beta e2.
+Proof. exact ustar_add. Qed.
+
+(* U10 = u*/kappa ln(10/z0) with the Charnock roughness of that friction velocity *)
+Theorem u10_loglaw : forall m cf P fs es a1s b1s e a1 b1,
+  eq_values m P fs es a1s b1s = Some (Some e, a1, b1) ->
+  let u := ustar_of (p_grav P) (p_I P) (p_beta P) e in
+  let z0 := charnock_z0 (p_alpha P) (p_gc P) (p_visc P) (p_nu P) u in
+  0 < z0 ->
+  exists d, estimate1d m cf P fs es a1s b1s = Some (Some u, d, Some (u / p_kappa P * ln (10 / z0))).
+Proof. exact estimate_u10_loglaw. Qed.
+
+Theorem charnock_without_viscosity : forall alpha gc nu u,
+  charnock_z0 alpha gc 0 nu u = alpha * u ^ 2 / gc.
+Proof. exact charnock_no_viscosity. Qed.
+
+Theorem charnock_positive : forall alpha gc visc nu u,
+  0 < alpha -> 0 < gc -> 0 <= visc -> 0 <= nu -> 0 < u -> 0 < charnock_z0 alpha gc visc nu u.
+Proof. exact charnock_pos. Qed.
+
+(* direction = atan2(b1, a1) in degrees modulo 360: in [0,360), and its unit vector is (a1,b1)/|(a1,b1)| *)
+Theorem dir_in_0_360 : forall a1 b1, 0 <= dir_of a1 b1 < 360.
+Proof. exact dir_in_0_360. Qed.
+
+Theorem dir_is_atan2 : forall a1 b1, (a1 <> 0 \/ b1 <> 0) ->
+  let r := sqrt (a1 * a1 + b1 * b1) in
+  a1 = r * cos (rad (dir_of a1 b1)) /\ b1 = r * sin (rad (dir_of a1 b1)).
+Proof. exact dir_is_atan2. Qed.
+
+(* coming-from / clockwise-from-north = (270 - going-to) mod 360: the unit vector of that compass bearing,
+   (east, north) = (sin, cos), is the opposite of the going-to vector (cos d, sin d); range [0,360) *)
+Theorem convention_correct : forall d,
+  sin (rad (convention d)) = - cos (rad d) /\ cos (rad (convention d)) = - sin (rad d).
+Proof. exact convention_correct. Qed.
+
+Theorem convention_in_0_360 : forall d, 0 <= convention d < 360.
+Proof. exact convention_in_0_360. Qed.
+
+(* the convention switch only touches the direction *)
+Theorem convention_only_direction : forall m P fs es a1s b1s r,
+  estimate1d m false P fs es a1s b1s = Some r ->
+  estimate1d m true P fs es a1s b1s =
+    Some (fst (fst r), option_map convention (snd (fst r)), snd r).
+Proof. exact estimate_convention. Qed.
+
+(* a 2D spectrum gives the answer of its 1D reduction (e = sum E dtheta skipping NaN, a1/b1 = first
+   circular moments / e) *)
 Theorem two_d_equals_one_d : forall m cf P fs dirs rows,
   estimate2d m cf P fs dirs rows =
   (let '(es, a1s, b1s) := reduce2d dirs rows in estimate1d m cf P fs es a1s b1s).
 Proof. reflexivity. Qed.
+
+(* members of a batch are estimated independently *)
+Theorem batch_independent : forall m cf P fs b i d,
+  (i < length b)%nat ->
+  nth i (estimate_batch m cf P fs b) d =
+  (let '(es, a1s, b1s) := nth i b ([], [], []) in estimate1d m cf P fs es a1s b1s).
+Proof. exact estimate_batch_independent. Qed.
